@@ -201,15 +201,22 @@ def dr_se_part(ctx, fails):
         otype = 'binary' if i % 3 else 'normal'
         df, meta = small_cat(ctx, otype)
         binary = otype == 'binary'
-        payload = {'part': 'dr_se', 'data': df.to_dict('list'), 'meta': meta}
         garbage = binary and ctx.rng.random() < 0.5
+        if i % 2 == 0:
+            # some outcomes missing (the influence-curve variance is over ALL n rows, not over the rows with an outcome)
+            df = df.copy()
+            for idx in ctx.rng.sample(list(df.index), max(1, len(df) // 6)):
+                cell = df[(df['S'] == df.loc[idx, 'S']) & (df['A'] == df.loc[idx, 'A']) & df['Y'].notna()]
+                if len(cell) > 2 and (not binary or (garbage or cell['Y'].drop(idx).nunique() == 2)):
+                    df.loc[idx, 'Y'] = np.nan
+        payload = {'part': 'dr_se', 'data': {c: [None if (isinstance(v, float) and v != v) else v for v in df[c].tolist()] for c in df.columns}, 'meta': meta}
         gt = [ctx.rng.choice([0.25, 0.375, 0.5, 0.625, 0.75]) for _ in range(meta['n_strata'])]
         q1t = [ctx.rng.choice([0.25, 0.5, 0.625, 0.75]) for _ in range(meta['n_strata'])]
         q0t = [ctx.rng.choice([0.125, 0.25, 0.5, 0.75]) for _ in range(meta['n_strata'])]
         for cls in (AIPTW, TMLE):
             name = cls.__name__
             try:
-                o = cls(df, 'A', 'Y', alpha=0.2) if name == 'AIPTW' else cls(df, 'A', 'Y', alpha=0.2, continuous_bound=1e-10)
+                o = cls(df, 'A', 'Y', alpha=0.2) if (name == 'AIPTW' or binary) else cls(df, 'A', 'Y', alpha=0.2, continuous_bound=1e-10)
                 if garbage:
                     o.exposure_model('S', custom_model=ec.Garbage(gt), print_results=False)
                     o.outcome_model('S + A', custom_model=ec.Garbage(q1t, q0t, col=0, acol=1), print_results=False)
@@ -239,7 +246,7 @@ def dr_se_part(ctx, fails):
                 pr = o._verif_probe_
                 lo, hi = (0.0, 1.0) if binary else (float(o._continuous_min), float(o._continuous_max))
                 y = np.asarray(o.df['Y'], dtype=float) * (hi - lo) + lo
-                Y = [ec.frac_y(v, 2) for v in np.round(y, 6)]
+                Y = [None if v != v else ec.frac_y(v, 2) for v in np.round(y, 6)]
                 q1 = ec.snap_vec(pr['Qstar1'] * (hi - lo) + lo, nn * 64, yden)[0]
                 q0 = ec.snap_vec(pr['Qstar0'] * (hi - lo) + lo, nn * 64, yden)[0]
                 rows = ec.coq_rows(S, A, Y, g1=ec.snap_vec(o.g1W, nn * 16)[0], q1=q1, q0=q0)
